@@ -839,8 +839,8 @@ func judgeConcurrent(w *proxyWorld, res *Result) {
 	}
 	// C09.a / C05.b / C05.c / C05.d: every surviving client gets the origin's answer
 	for _, ex := range w.exch {
-		if ex.Req.Evict || ex.Req.Raw != "" || ex.Disconnected || !ex.Sent {
-			continue
+		if ex.Req.Evict || ex.Req.Raw != "" || ex.Disconnected || !ex.Sent || ex.Req.Unsendable {
+			continue // (a request the proxy cannot pass on is owed an error answer of its own, nothing else)
 		}
 		res.Evals++
 		desc := reqDesc(ex)
